@@ -85,8 +85,7 @@ def run(ctx):
             states = []
             try:
                 fl = make()
-                if not aff:
-                    states.append(("untrained", fl))
+                states.append(("untrained", fl))        # "before and after training": also with the affine map (identity until fitted)
                 fl2 = make()
                 if backend == "zuko":
                     fl2.fit(data, n_epochs=ctx.scale(3, 15), batch_size=100)
